@@ -145,7 +145,7 @@ fn t_source_file(this: &mut Sh, file: FileTok, source_info: &crate::SourceInfo, 
 /*@LIFT source_file*/
 }
 
-//@proof {'props': ['C16', 'C02'], 'tier': 'quick', 'timeout': 900, 'uses': ['run_parsed'], 'bounds': 'parse outcome Ok/Err symbolic; program outcome arbitrary (status, flow) or an error (fatal or not)', 'desc': 'run_parsed_result is total: it never returns Err (so the `?` after run_string in the front-ends cannot skip the EXIT trap); an error is displayed once and becomes the status, which is also stored in $?; a successful program result is passed through unchanged'}
+//@proof {'props': ['C16'], 'tier': 'quick', 'timeout': 900, 'uses': ['run_parsed'], 'bounds': 'parse outcome Ok/Err symbolic; program outcome arbitrary (status, flow) or an error (fatal or not)', 'desc': 'run_parsed_result is total: it never returns Err (so the `?` after run_string in the front-ends cannot skip the EXIT trap); an error is displayed once and becomes the status, which is also stored in $?; a successful program result is passed through unchanged'}
 #[kani::proof]
 #[kani::unwind(4)]
 #[kani::stub(std::hash::RandomState::new, crate::vk_prelude::stub_random_state_new)]
